@@ -528,6 +528,33 @@ def parameter_is_read_rule(index, rep, rid, modules):
     return n
 
 
+def orphaned_local_rule(index, rep, rid, modules):
+    """a value prepared for a keyword reaches it: a local that is assigned and never read, while a call in the same
+    function passes the keyword of exactly that name from ANOTHER variable (`k=other`), is the value that was meant to
+    go there - the callee gets the wrong one of two like-named settings."""
+    n = 0
+    for m in modules:
+        for f in index.functions_in_module(m):
+            stores, loads = {}, set()
+            for x in ast.walk(f.node):
+                if isinstance(x, ast.Name):
+                    if isinstance(x.ctx, ast.Store):
+                        stores.setdefault(x.id, x)
+                    else:
+                        loads.add(x.id)
+            dead = {k for k in stores if k not in loads and k not in f.all_params and not k.startswith("_")}
+            if not dead:
+                continue
+            for c in calls_in(f.node, nested=True):
+                for kw in c.keywords:
+                    if kw.arg in dead:
+                        n += 1
+                        if isinstance(kw.value, ast.Name) and kw.value.id != kw.arg:
+                            rep.check(False, rid, f.qualname, "`%s=%s` while the local `%s` is never used" % (kw.arg, kw.value.id, kw.arg), fn_where(f, c), "",
+                                      "%s computes the local `%s` and never reads it, while `%s` is called with `%s=%s`: the value prepared for that keyword never reaches it - the callee is driven by the other, like-named setting" % (f.qualname, kw.arg, norm(c.func)[:50], kw.arg, kw.value.id))
+    return n
+
+
 def settings_clone_rule(index, rep, rid, modules):
     """A method that builds a new object of its own class from its own settings (two or more constructor arguments taken
     from self) passes ALL the constructor's options: one left out silently falls back to its default in the result."""
@@ -1452,6 +1479,7 @@ def generic_rules(prop, index, rep):
         nw = arg_wiring_rule(index, rep, rid, mods)
         nw += option_handed_on_rule(index, rep, rid, mods)
         nw += parameter_is_read_rule(index, rep, rid, mods)
+        nw += orphaned_local_rule(index, rep, rid, mods)
         nw += option_handed_down_rule(index, rep, rid, mods)
         nw += settings_clone_rule(index, rep, rid, mods)
         rep.ob(rid, "src/dendropy", "%d resolved calls in the property's modules examined" % nw, True)
